@@ -178,6 +178,10 @@ Section Check.
     | UDict keys items => option_map (fun a => (keys, a)) (sequence (map (fun p => spark_dict (fst p) (snd p)) items))
     end.
 
+  (** the call is named and aggregated as PySpark does (C06_partial_names' domain, decided per case) *)
+  Definition same_aggs (a b : list (aexpr * string)) : bool :=
+    list_eqb (fun p q => aexpr_eqb (fst p) (fst q) && String.eqb (snd p) (snd q)) a b.
+
   Definition join_back (k : string) (l r : frame) : frame :=
     let rc := filter (fun c0 => negb (String.eqb c0 k)) (cols r) in
     let lc := filter (fun c0 => negb (String.eqb c0 k)) (cols l) in
@@ -217,7 +221,7 @@ Section Check.
         | Some (e, keys, aggs), Some (skeys, saggs) =>
             mkRun (xstep c g X (PAgg e keys aggs)) (option_map (spec_agg keys aggs) (r_tail r))
                   (spec_agg skeys saggs (r_spec r))
-                  (r_dom r && xop_ok c X (PAgg e keys aggs)) (r_ok r)
+                  (r_dom r && xop_ok c X (PAgg e keys aggs) && same_aggs aggs saggs) (r_ok r)
         | _, _ => mkRun X (r_tail r) (r_spec r) false false
         end
     | UCube keys uc =>
